@@ -83,6 +83,12 @@ def gen_requests(rng, files, n):
         add('get-file', req('GET', p, hdrs()), path=p)
     for b in ['/', '/style.css', '/script.js', '/favicon.svg', '/sub/', '/sub', '/emptydir', '/link.txt']:
         add('get-builtin-or-dir', req('GET', b, hdrs()))
+    # preflights that agree in Origin and requested method and differ only in the requested headers
+    # (anything memoised per origin/method shows as cross-talk between them)
+    for i in range(10):
+        for o, m in (('http://a.example', 'PUT'), ('https://foo.example', 'GET')):
+            add('options-same-origin', req('OPTIONS', paths[i % len(paths)], [('Host', 'localhost'), ('Origin', o),
+                ('Access-Control-Request-Method', m), ('Access-Control-Request-Headers', 'X-Token-%d, X-Other-%d' % (i, 97 - i))]))
     guard = 0
     forced = [0, 6, 8, 10, 12, 14, 16, 17, 18, 19] * 4       # at least four attempts of every request class
     while len(out) < n and guard < 20 * n:
@@ -243,8 +249,10 @@ def run_probe(res, tier, seed, only_workers=None, rounds_override=None, log=None
             with R.Server(docroot, threads=N, capture_stdout=False) as srv:
                 # two serial passes in different orders: the answer may not depend on what was served before
                 order2 = adjacent_order(rng, reqs)
-                s1 = pr.serial(srv, reqs)
+                # the shuffled pass runs FIRST on this fresh instance: what was memoised by the first request of a
+                # class differs from the reference instance (generation order), so order dependence shows
                 s2 = pr.serial(srv, reqs, order2)
+                s1 = pr.serial(srv, reqs)
                 expected = []
                 for i, r in enumerate(reqs):
                     c1, c2 = canon(s1[i], r['form']), canon(s2[i], r['form'])
